@@ -10,10 +10,10 @@
 (***************************************************************************)
 EXTENDS Naturals, Integers, Sequences, FiniteSets, TLC
 
-UserNames == {"a", "b", "c"}
+UserNames == {"a", "b", "_c"}       \* one user label starts with an underscore, like the worker's own bookkeeping labels
 DeclNames == UserNames \cup {"max_retries", "retry_on_error", "timeout"}
 Names == DeclNames \cup {"_retries", "X-Taskiq-requeue"}
-NameOrder == <<"X-Taskiq-requeue", "_retries", "a", "b", "c", "max_retries", "retry_on_error", "timeout">>
+NameOrder == <<"X-Taskiq-requeue", "_c", "_retries", "a", "b", "max_retries", "retry_on_error", "timeout">>
 NoLab == [n \in Names |-> 0]
 
 HasUnknownName(seq) == \E i \in DOMAIN seq : seq[i].n \notin Names
@@ -48,7 +48,9 @@ ExpectedSend(c, gen0, ok, hooks) ==
 IsPrefixOf(a, b) == Len(a) <= Len(b) /\ \A i \in DOMAIN a : a[i] = b[i]
 
 --------------------------------------------------------------------------
-NoSnd == [active |-> FALSE, exp |-> NoLab, etid |-> 0, ebr |-> 1, ok |-> TRUE, seq |-> <<>>, origin |-> "", gen0 |-> 0, att |-> 1]
+NoSnd == [active |-> FALSE, exp |-> NoLab, etid |-> 0, ebr |-> 1, ok |-> TRUE, seq |-> <<>>, origin |-> "", gen0 |-> 0, att |-> 1,
+          noser |-> FALSE]     \* noser: an argument cannot be serialised - the send fails before the broker is reached
+PreOnly(c, gen0) == [q \in 1..Len(PreIdx(c)) |-> <<"presend", PreIdx(c)[q], gen0 + GenBefore(c, PreIdx(c)[q])>>]
 NoRun == [active |-> FALSE, j |-> 0, mode |-> "", kicks |-> 0, saves |-> 0, saveErr |-> FALSE, execs |-> 0]
 NoMsg == [exp |-> NoLab, tid |-> 0, att |-> 0, gen |-> 0, sent |-> FALSE]
 
@@ -68,7 +70,7 @@ ClFold(c, o, ev) ==
          [o EXCEPT !.snd = [active |-> TRUE, exp |-> IF ev.k = 0 THEN o.decl0 ELSE o.kk[ev.k].own,
                             etid |-> IF ev.k = 0 THEN 0 ELSE o.kk[ev.k].tid,
                             ebr |-> IF ev.k = 0 THEN 1 ELSE o.kk[ev.k].br, ok |-> ev.ok, seq |-> <<>>,
-                            origin |-> "kiq", gen0 |-> 0, att |-> 1]]
+                            origin |-> "kiq", gen0 |-> 0, att |-> 1, noser |-> ev.s = "noser"]]
     [] ev.e \in {"presend", "postsend", "kick"} ->
          LET par == IF o.run.active /\ o.run.j \in DOMAIN o.msg THEN o.msg[o.run.j] ELSE NoMsg
              s0 == IF o.snd.active THEN o.snd
@@ -119,13 +121,18 @@ ClCheck(c, op, o, ev) ==
         THEN {"C09_TaskIdAtWorker"} ELSE {})
   \cup (IF ev.e = "ran" /\ op.run.mode = "requeue" /\ op.run.kicks = 0 THEN {"C09_RequeueLost"} ELSE {})
   (* ---------------- C10 send side ---------------- *)
-  \cup (IF ev.e \in {"presend", "postsend", "kick"}
+  \cup (IF ev.e \in {"presend", "postsend", "kick"} /\ ~sn.noser
            /\ ~(\E okk \in BOOLEAN : (ev.e = "kick" => okk = ev.ok) /\ (sn.origin = "kiq" => okk = sn.ok)
                                       /\ IsPrefixOf(sn.seq, ExpectedSend(c, sn.gen0, okk, Hk(sn))))
         THEN {"C10_SendOrder"} ELSE {})
-  \cup (IF ev.e = "kiqret" /\ op.snd.active
+  \cup (IF ev.e \in {"presend", "postsend", "kick"} /\ sn.noser /\ ~IsPrefixOf(sn.seq, PreOnly(c, sn.gen0))
+        THEN {"C10_SendOrder"} ELSE {})
+  \cup (IF ev.e = "kiqret" /\ op.snd.active /\ ~op.snd.noser
            /\ (op.snd.seq # ExpectedSend(c, op.snd.gen0, op.snd.ok, Hk(op.snd))
                \/ ev.s # (IF op.snd.ok THEN "ok" ELSE "SendTaskError"))
+        THEN {"C10_SendComplete"} ELSE {})
+  \cup (IF ev.e = "kiqret" /\ op.snd.active /\ op.snd.noser
+           /\ (op.snd.seq # (IF Hk(op.snd) THEN PreOnly(c, op.snd.gen0) ELSE <<>>) \/ ev.s # "SendTaskError")
         THEN {"C10_SendComplete"} ELSE {})
   \cup (IF ev.e = "kiqret" /\ ~op.snd.active THEN {"C10_SendComplete"} ELSE {})
   \cup (IF ev.e = "ran" /\ op.snd.active /\ op.snd.seq # ExpectedSend(c, op.snd.gen0, op.run.mode # "failk", Hk(op.snd))
